@@ -30,7 +30,22 @@
 (***************************************************************************)
 EXTENDS Bignum
 
+RECURSIVE ZPow10(_)
+ZPow10(k) == IF k = 0 THEN ZOne ELSE ZMulSmall(ZPow10(k - 1), 10)
+
+\* type descriptor
 TY(nm, s, b, w, sc) == [name |-> nm, signed |-> s, bits |-> b, word |-> w, scale |-> sc]
+
+\* descriptor with the derived bounds: min / max (meaningful iff HasMin / HasMax) and the
+\* scale factor 10^scale.  TLC does not cache definitions that go through RECURSIVE operators,
+\* so users build the table of full descriptors ONCE (e.g. into a state variable) and pass
+\* full descriptors to every operator below.
+Full(T) ==
+  [name |-> T.name, signed |-> T.signed, bits |-> T.bits, word |-> T.word, scale |-> T.scale,
+   min |-> IF T.signed /\ T.bits > 0 THEN ZNeg(ZPow2(T.bits - 1)) ELSE ZZero,
+   max |-> IF T.bits = 0 THEN ZZero
+           ELSE IF T.signed THEN ZSub(ZPow2(T.bits - 1), ZOne) ELSE ZSub(ZPow2(T.bits), ZOne),
+   factor |-> ZPow10(T.scale)]
 
 AllTypes == <<
   TY("Int8", TRUE, 8, FALSE, 0), TY("Int16", TRUE, 16, FALSE, 0), TY("Int32", TRUE, 32, FALSE, 0),
@@ -47,11 +62,12 @@ AllTypes == <<
 TypeNames == {AllTypes[i].name : i \in 1..Len(AllTypes)}
 IntegerTypeNames == {AllTypes[i].name : i \in {j \in 1..Len(AllTypes) : AllTypes[j].scale = 0}}
 TypeOf(nm) == AllTypes[CHOOSE i \in 1..Len(AllTypes) : AllTypes[i].name = nm]
+FullTypeTable == [nm \in TypeNames |-> Full(TypeOf(nm))]
 
 HasMin(T) == ~T.signed \/ T.bits > 0
 HasMax(T) == T.bits > 0
-TMax(T) == IF T.signed THEN ZSub(ZPow2(T.bits - 1), ZOne) ELSE ZSub(ZPow2(T.bits), ZOne)
-TMin(T) == IF T.signed THEN ZNeg(ZPow2(T.bits - 1)) ELSE ZZero
+TMax(T) == T.max      \* meaningful iff HasMax(T)
+TMin(T) == T.min      \* meaningful iff HasMin(T)
 
 InRange(T, x) == /\ (HasMin(T) => ZLe(TMin(T), x))
                  /\ (HasMax(T) => ZLe(x, TMax(T)))
@@ -60,9 +76,7 @@ Clamp(T, x) == IF HasMin(T) /\ ZLt(x, TMin(T)) THEN TMin(T)
                ELSE IF HasMax(T) /\ ZGt(x, TMax(T)) THEN TMax(T)
                ELSE x
 
-RECURSIVE ZPow10(_)
-ZPow10(k) == IF k = 0 THEN ZOne ELSE ZMulSmall(ZPow10(k - 1), 10)
-ScaleOf(T) == ZPow10(T.scale)
+ScaleOf(T) == T.factor
 
 RangeErr == {"overflow", "underflow"}
 Outcomes == {"ok", "overflow", "underflow", "divzero", "negshift"}
@@ -90,7 +104,7 @@ ValidDivMod(T, a, b, out, q, out2, r) ==
   ELSE /\ out2 = "ok"                       \* |r| < |b|: the remainder is always representable
        /\ InRange(T, r)
        /\ IF QuotientOutOfRange(T, a, b)
-          THEN (IF T.word THEN FALSE ELSE out \in RangeErr) /\ ZIsZero(r)
+          THEN out \in RangeErr /\ ZIsZero(r)
           ELSE out = "ok" /\ InRange(T, q) /\ ZIsTruncDivMod(a, b, q, r)
 
 (* ---------------------------------------------------------------- C12 *)
